@@ -285,6 +285,14 @@ def validate_trace(module, cfg, trace_path, timeout=900, xmx="4g", deque=False, 
     if env:
         e.update(env)
     r = tlc(module, cfg, workers=1, timeout=timeout, env=e, xmx=xmx, deque=deque)
+    if r.error and "Overflow when computing" in (r.out or ""):
+        # a recorded value took the specification's arithmetic out of TLC's 32-bit integers.  The drivers keep every value of a
+        # conforming implementation inside that range (flagging what they cannot project), so the line that overflows is a line
+        # the specification cannot explain: a rejection at that depth, not a failure of the machinery.
+        m = re.findall(r"^State (\d+):", r.out, re.M)
+        d = int(m[-1]) - 1 if m else max(r.depth - 1, 0)
+        r.violated = "overflow: recorded values outside the range the specification evaluates"
+        return False, d, r
     if r.error:
         raise Infra("trace validation %s on %s: %s" % (module, trace_path, r.error))
     if r.violated and r.violated != "postcondition":
@@ -362,6 +370,9 @@ def known_findings():
     return json.load(open(p)).get("findings", [])
 
 
+CURRENT_REPORT = None
+
+
 class Report:
     """Collects what a check run covered and decides the exit status."""
 
@@ -377,6 +388,8 @@ class Report:
         self.violations = []     # (text, replay path)
         self.known = {}          # finding id -> count
         self.exhaustive = True
+        global CURRENT_REPORT
+        CURRENT_REPORT = self
 
     def add_tlc(self, name, r):
         self.states += r.distinct
